@@ -10,3 +10,4 @@ def run(ck):
     region.r7_3_queries(ck, P)
     region.r7_4_compaction_cursors(ck, P)
     region.r7_5_independent_clamps(ck, P)
+    region.r7_6_previous_band_updates(ck, P)
